@@ -60,8 +60,13 @@ func (d *DAGMutex[T]) RLock(ids ...T) {
 // RUnlock unlocks reading for all given entities.
 // It does not affect other simultaneous readers.
 func (d *DAGMutex[T]) RUnlock(ids ...T) {
-	for _, mutex := range d.unregisterMutexes(ids...) {
-		mutex.RUnlock()
+	for _, id := range ids {
+		// unlock first: it panics, before any bookkeeping is touched, if the entity is not locked for reading.
+		d.registeredMutex(id).RUnlock()
+
+		d.Mutex.Lock()
+		d.unregisterMutex(id)
+		d.Mutex.Unlock()
 	}
 }
 
@@ -80,16 +85,25 @@ func (d *DAGMutex[T]) Lock(id T) {
 // As with Mutexes, a locked DAGMutex is not associated with a particular goroutine. One goroutine may RLock (Lock) an
 // entity within DAGMutex and then arrange for another goroutine to RUnlock (Unlock) it.
 func (d *DAGMutex[T]) Unlock(id T) {
+	// unlock first: it panics, before any bookkeeping is touched, if the entity is locked for reading.
+	d.registeredMutex(id).Unlock()
+
 	d.Mutex.Lock()
-	mutex := d.unregisterMutex(id)
-	if mutex == nil {
-		d.Mutex.Unlock()
-
-		return
-	}
+	d.unregisterMutex(id)
 	d.Mutex.Unlock()
+}
 
-	mutex.Unlock()
+// registeredMutex returns the mutex of an entity that is currently locked or waited for.
+func (d *DAGMutex[T]) registeredMutex(id T) (mutex *StarvingMutex) {
+	d.Mutex.Lock()
+	defer d.Mutex.Unlock()
+
+	mutex, mutexExists := d.mutexes.Get(id)
+	if !mutexExists {
+		panic(ierrors.Errorf("called Unlock or RUnlock too often for entity with %v", id))
+	}
+
+	return mutex
 }
 
 func (d *DAGMutex[T]) registerMutexes(ids ...T) (mutexes []*StarvingMutex) {
@@ -116,34 +130,19 @@ func (d *DAGMutex[T]) registerMutex(id T) (mutex *StarvingMutex) {
 	return mutex
 }
 
-func (d *DAGMutex[T]) unregisterMutexes(ids ...T) (mutexes []*StarvingMutex) {
-	d.Mutex.Lock()
-	defer d.Mutex.Unlock()
-
-	mutexes = make([]*StarvingMutex, 0)
-	for _, id := range ids {
-		if mutex := d.unregisterMutex(id); mutex != nil {
-			mutexes = append(mutexes, mutex)
-		}
+// unregisterMutex drops one consumer of the entity and forgets the entity when it was the last one.
+func (d *DAGMutex[T]) unregisterMutex(id T) {
+	count, exists := d.consumerCounter.Get(id)
+	if !exists {
+		panic(ierrors.Errorf("called Unlock or RUnlock too often for entity with %v", id))
 	}
 
-	return mutexes
-}
-
-func (d *DAGMutex[T]) unregisterMutex(id T) (mutex *StarvingMutex) {
-	if count, _ := d.consumerCounter.Get(id); count == 1 {
+	if count == 1 {
 		d.consumerCounter.Delete(id)
 		d.mutexes.Delete(id)
 
-		return nil
+		return
 	}
 
-	mutex, mutexExists := d.mutexes.Get(id)
-	if !mutexExists {
-		panic(ierrors.Errorf("called Unlock or RUnlock too often for entity with %v", id))
-	}
-	count, _ := d.consumerCounter.Get(id)
 	d.consumerCounter.Set(id, count-1)
-
-	return mutex
 }
